@@ -293,6 +293,28 @@ def worker(shard, nshards, plan):
                 if idx % nshards != shard:
                     continue
                 errors_and_nodes(sql, dialect, res, record)
+        elif kind == "reuse":
+            # positions reported by a Tokenizer object that has already tokenized another input (every ordered pair)
+            firsts = ["SELECT 1", "SELECT 1\n", "SELECT 1 -- c\n", "SELECT 1\r", "SELECT 1\r\n", "SELECT 'a\nb'", "SELECT /* x\ny */ 1", "\n\n", "SELECT 'open", "/* open",
+                      "SELECT 1 /* c */\n\n\t"]
+            seconds = ["SELECT a", "\nSELECT a", "SELECT\n a,\n b", "SELECT 'x\ny', b", "-- c\nSELECT a", "SELECT é, a"]
+            T = lex_for(dialect).D.tokenizer()
+            for f in firsts:
+                for g in seconds:
+                    idx += 1
+                    if idx % nshards != shard:
+                        continue
+                    res["evaluations"] += 1
+                    try:
+                        T.tokenize(f)
+                    except Exception:
+                        pass
+                    try:
+                        toks = T.tokenize(g)
+                    except Exception:
+                        continue
+                    for code, msg in check_tokens(g, dialect, toks):
+                        record(code + ".reused", dialect, "reuse", g, f"after tokenizing {f!r} on the same Tokenizer: {msg}")
         elif kind == "corpus":
             # statements of the repository's dialect tests: as written, and with every gap between two tokens turned into a
             # line break / CRLF + tab (dialect-specific lexemes - heredocs, hints, prefixes, nested comments - now span lines)
@@ -433,6 +455,8 @@ def run(ctx: Ctx) -> None:
         plan.append(("lexemes", d, 3 if quick else 3, JOINERS_QUICK if quick else JOINERS))
     for d in (QUICK_DIALECTS if quick else dialects):
         plan.append(("errors", d, 1))
+    for d in dialects:
+        plan.append(("reuse", d))
     by_d = {}
     for d, sql in corpus.dialect_test_sql():
         by_d.setdefault(d, []).append(sql)
@@ -460,7 +484,8 @@ def run(ctx: Ctx) -> None:
                     "quote/identifier delimiter, comment markers, number characters) in every dialect; all sequences of <= 3 lexemes from a "
                     "~35-entry menu joined by every separator; every single-token deletion/duplication of G_core (k<=1) statements for "
                     "ParseError entries; identifier position meta on G_core parses; the same three oracles on every statement of tests/dialects/*.py "
-                    "in its own dialect, as written and with every inter-token gap turned into LF / CRLF+TAB. non-trivial = inputs with >= 2 tokens and a line break or "
+                    "in its own dialect, as written and with every inter-token gap turned into LF / CRLF+TAB; every ordered pair (11 x 6 inputs) on one "
+                    "reused Tokenizer per dialect. non-trivial = inputs with >= 2 tokens and a line break or "
                     "multi-byte character.",
             "tokens_checked": res["tokens"],
             "parse_error_entries_checked": res["errors_checked"],
